@@ -10,6 +10,7 @@
 import ClarabelProofs.Lemmas.Loop
 import ClarabelProofs.Props.C09
 import ClarabelProofs.Props.C04Full
+import ClarabelProofs.Props.C04NS
 import ClarabelProofs.Props.C04NoPanic
 import ClarabelProofs.Lemmas.LoopTimers
 import ClarabelProofs.Lemmas.LoopGuards
